@@ -5062,7 +5062,9 @@ class Entity(object, metaclass=EntityMeta):
                             val = get_val(attr) if attr in obj._vals_ else attr.load(obj)
                             if val is None: continue
                             if attr.cascade_delete: val._delete_(undo_funcs)
-                            elif not reverse.is_required: reverse.__set__(val, None, undo_funcs)
+                            elif not reverse.is_required:
+                                # the other side can already refer to its new partner (this object is deleted by that very assignment)
+                                if val._vals_.get(reverse, obj) is obj: reverse.__set__(val, None, undo_funcs)
                             else: throw(ConstraintError, "Cannot delete object %s, because it has associated %s, "
                                                          "and 'cascade_delete' option of %s is not set"
                                                          % (obj, attr.name, attr))
